@@ -8,7 +8,7 @@ from ..strategies import crossing_pair, program_strategy, spec_strategy
 from ._sim_common import frac, summarize
 
 ID = "C16"
-RULE = ("Hypothesis generates 2 markets, a TradingHaltRule on one of them (rate 0.005-0.1, haltingTimeLength 0-6) attached to "
+RULE = ("Hypothesis generates 2 markets, a TradingHaltRule on one of them or (one case in four) on both (rate 0.005-0.1, haltingTimeLength 0-6) attached to "
         "any session, 1-3 sessions with generated execution flags and lengths (so that halts end inside their session, at its "
         "end, or are cut by it), and scripted agents whose limit prices walk the price away from and back to the reference. A "
         "probe event registered after the rule records market price, p0 = get_market_price(0) and is_running after every fill. "
@@ -18,7 +18,7 @@ RULE = ("Hypothesis generates 2 markets, a TradingHaltRule on one of them (rate 
         "step of the next session iff that session executes; the non-target market's is_running always equals its session's "
         "flag; orders submitted during a halt are still accepted. Non-trivial = run containing >=1 halt; distinct by (config, "
         "seed).")
-ASSUMPTIONS = ["one target market per rule (the documented way to halt markets separately)",
+ASSUMPTIONS = ["a rule has one target (three cases in four) or both markets; with several targets only the market whose fill crossed the line stops, and the halt counter is shared by the rule's targets (observed behaviour; the property speaks of 'that market')",
                "fills on OTHER markets while the target is halted are neither required nor forbidden by the property and are not judged"]
 
 
@@ -36,7 +36,8 @@ def cases(draw, tier):
     cfg["A0"] = {"class": "VScriptedAgent", "numAgents": draw(st.integers(2, 5)), "markets": list(names), "assetVolume": 10, "cashAmount": 1000,
                  "scripts": draw(st.lists(program_strategy(spec, max_actions=6, decline_weight=0), min_size=1, max_size=4))}
     cfg["B0"] = crossing_pair(names, ttl=2)
-    cfg["HALT"] = {"class": "TradingHaltRule", "targetMarkets": [target], "triggerChangeRate": rate, "haltingTimeLength": L}
+    both = draw(st.integers(0, 3)) == 0  # one rule over both markets: one halt slot and one halt counter shared by its targets
+    cfg["HALT"] = {"class": "TradingHaltRule", "targetMarkets": list(names) if both else [target], "triggerChangeRate": rate, "haltingTimeLength": L}
     if draw(st.integers(0, 5)) == 0:
         cfg["HALT"]["enabled"] = False
     cfg["P"] = {"class": "VProbeEvent", "hooks": [["execution", False, None, None, None]]}
@@ -56,69 +57,75 @@ def check_case(case):
     halt = cfg["HALT"]
     enabled = halt.get("enabled", True)
     L, rate = halt["haltingTimeLength"], halt["triggerChangeRate"]
-    target = sim.name2market[halt["targetMarkets"][0]]
-    ti = sim.markets.index(target)
-    k = 0
-    halted_until = None
-    halt_round = False
+    targets = [sim.name2market[n] for n in halt["targetMarkets"]]
+    tidx = {m.market_id: sim.markets.index(m) for m in targets}
+    k = 0  # halts so far: one counter per rule, shared by its targets
+    halted_until = {m.market_id: None for m in targets}
+    halt_round = {m.market_id: False for m in targets}
     cur_session = None
     n_halts = 0
     halted_steps = 0
     accepted_during_halt = 0
     cut_by_session = 0
+    m0 = sim.markets[0]
     for kind, kw in A.items:
-        if kind == "log.direct" and isinstance(kw["log"], MarketStepBeginLog) and kw["log"].market is target:
+        if kind == "log.direct" and isinstance(kw["log"], MarketStepBeginLog):
+            mk = kw["log"].market
             t = kw["times"][0]
             ses = kw["log"].session.session_id
-            if ses != cur_session:
+            if mk is m0 and ses != cur_session:
                 cur_session = ses
-                if halted_until is not None:
-                    cut_by_session += 1
-                halted_until = None  # the halt ends with its session
-            if halted_until is not None and t > halted_until:
-                halted_until = None
-            exp_running = A.sess_cfg[ses]["withOrderExecution"] and halted_until is None
-            if halted_until is not None:
-                halted_steps += 1
-            if kw["running"][ti] != exp_running:
-                raise Violation("C16.halt_schedule", f"step {t} (session {ses}, executes={A.sess_cfg[ses]['withOrderExecution']}): target is_running={kw['running'][ti]}, "
-                                                     f"expected {exp_running} (halt in force until step {halted_until}, length {L}, halts so far {k})")
-            for j, m in enumerate(sim.markets):
-                if j != ti and kw["running"][j] != A.sess_cfg[ses]["withOrderExecution"]:
-                    raise Violation("C16.non_target_untouched", f"step {t}: non-target market {m.name} is_running={kw['running'][j]} in a session with "
+                for mid in halted_until:
+                    if halted_until[mid] is not None:
+                        cut_by_session += 1
+                    halted_until[mid] = None  # a halt ends with its session
+            if mk.market_id in halted_until:
+                mid = mk.market_id
+                if halted_until[mid] is not None and t > halted_until[mid]:
+                    halted_until[mid] = None
+                exp_running = A.sess_cfg[ses]["withOrderExecution"] and halted_until[mid] is None
+                if halted_until[mid] is not None:
+                    halted_steps += 1
+                if kw["running"][tidx[mid]] != exp_running:
+                    raise Violation("C16.halt_schedule", f"step {t} (session {ses}, executes={A.sess_cfg[ses]['withOrderExecution']}): target {mk.name} is_running="
+                                                         f"{kw['running'][tidx[mid]]}, expected {exp_running} (halt in force until step {halted_until[mid]}, length {L}, "
+                                                         f"halts so far {k})")
+            else:
+                j = sim.markets.index(mk)
+                if kw["running"][j] != A.sess_cfg[ses]["withOrderExecution"]:
+                    raise Violation("C16.non_target_untouched", f"step {t}: non-target market {mk.name} is_running={kw['running'][j]} in a session with "
                                                                 f"withOrderExecution={A.sess_cfg[ses]['withOrderExecution']}")
         if kind == "log.write" and isinstance(kw["log"], (OrderLog, CancelLog)):
-            halt_round = False
-            if halted_until is not None:
+            for mid in halt_round:
+                halt_round[mid] = False
+            if any(v is not None for v in halted_until.values()):
                 accepted_during_halt += 1
-        if kind == "log.write" and isinstance(kw["log"], ExecutionLog) and not enabled:
-            pass
         if kind == "hook" and kw["what"] == "execution_after":
             l = kw["log"]
-            if l.market_id == target.market_id:
-                if halted_until is not None and not halt_round:
-                    raise Violation("C16.no_fill_while_halted", f"fill at time {l.time} on the halted target market (halt in force until step {halted_until})")
-                if enabled and halted_until is None and abs(kw["p0"] - kw["mp"]) >= abs(kw["p0"] * rate * (k + 1)):
-                    halted_until = l.time + L
+            mid = l.market_id
+            if mid in halted_until:
+                if halted_until[mid] is not None and not halt_round[mid]:
+                    raise Violation("C16.no_fill_while_halted", f"fill at time {l.time} on the halted target market {mid} (halt in force until step {halted_until[mid]})")
+                if enabled and halted_until[mid] is None and abs(kw["p0"] - kw["mp"]) >= abs(kw["p0"] * rate * (k + 1)):
+                    halted_until[mid] = l.time + L
                     k += 1
                     n_halts += 1
-                    halt_round = True
+                    halt_round[mid] = True
                     if kw["running"]:
                         raise Violation("C16.halts_at_once", f"price {kw['mp']!r} deviates from p0 {kw['p0']!r} by at least rate*{k} but the market is still running after the fill")
-                elif kw["running"] is False and halted_until is None:
+                elif kw["running"] is False and halted_until[mid] is None:
                     raise Violation("C16.unexpected_halt", f"target stopped after a fill at {kw['mp']!r} (p0 {kw['p0']!r}, threshold rate*{k + 1}={rate * (k + 1)})")
             else:
-                # a fill on a market that is not the halted one: the property does not forbid it (pams happens to stop all
-                # matching of the session during a halt, which C09 permits but nothing requires)
+                # a fill on a market that is not a target: the property does not forbid it while a target is halted
                 if kw["running"] is False:
-                    raise Violation("C16.no_fill_on_stopped_market", f"fill at time {l.time} on market {l.market_id}, which reports is_running=False")
+                    raise Violation("C16.no_fill_on_stopped_market", f"fill at time {l.time} on market {mid}, which reports is_running=False")
     # independent of the model: no fill is ever recorded for a market that was not running at the preceding step-begin
     # observation unless it was (re)started in between -- covered by the schedule above; here the plain invariant on the
     # trace: a fill's market reports is_running in the probe hook of the first fill of each round
     returned = len(A.returned_orders)
     if len(A.order_logs) != returned:
         raise Violation("C16.orders_accepted_during_halt", f"{returned} orders submitted, {len(A.order_logs)} accepted")
-    classes = (["halt"] if n_halts else []) + (["two_halts"] if n_halts >= 2 else []) + (["accepted_during_halt"] if accepted_during_halt else []) + \
+    classes = (["two_targets"] if len(targets) == 2 else []) + (["halt"] if n_halts else []) + (["two_halts"] if n_halts >= 2 else []) + (["accepted_during_halt"] if accepted_during_halt else []) + \
               (["cut_by_session"] if cut_by_session else []) + (["disabled"] if not enabled else [])
     return CaseInfo(nontrivial=n_halts >= 1, classes=classes, steps=A.total_steps,
                     sample={"rule": halt, "sessions": [(s["iterationSteps"], s["withOrderExecution"]) for s in A.sess_cfg], "halts": n_halts,
